@@ -456,7 +456,10 @@ def list_method(ex, base, attr, args, kwargs, st, n):
     ept = base.pt.args[0]
     seq = ex.list_content(st, base)
     if attr == 'append':
-        v = ex.coerce(args[0], ept)
+        a0 = args[0]
+        if a0.pt.kind == 'opt' and ept.kind not in ('opt', 'cell') and a0.pt.args[0] == ept:
+            a0 = ex.unwrap_opt(st, a0, n)
+        v = ex.coerce(a0, ept, st)
         ex.set_list_content(st, base, Concat(seq, Unit(v.t)), n)
         return NONE
     if attr == 'insert':
